@@ -20,7 +20,10 @@ const (
 	KB             // Bool
 	KS             // Str
 	KR             // Real (floats; opaque)
+	KY             // byte-sized integers (own memory: byte buffers never alias other data)
 )
+
+var allKinds = []Kind{KI, KB, KS, KR, KY}
 
 func (k Kind) Sort() Sort {
 	switch k {
@@ -30,11 +33,13 @@ func (k Kind) Sort() Sort {
 		return SBool
 	case KS:
 		return SStr
+	case KY:
+		return SInt
 	}
 	return SReal
 }
 
-func (k Kind) String() string { return [...]string{"I", "B", "S", "R"}[k] }
+func (k Kind) String() string { return [...]string{"I", "B", "S", "R", "Y"}[k] }
 
 type Role byte
 
@@ -83,6 +88,8 @@ func (l *Layouts) compute(t types.Type) []Slot {
 		switch {
 		case u.Info()&types.IsBoolean != 0:
 			return []Slot{{K: KB}}
+		case u.Kind() == types.Uint8 || u.Kind() == types.Int8:
+			return []Slot{{K: KY, Basic: u}}
 		case u.Info()&types.IsInteger != 0:
 			return []Slot{{K: KI, Basic: u}}
 		case u.Info()&types.IsString != 0:
